@@ -21,9 +21,9 @@ vars1 == <<q1, A1, B1, hasHdr1, breakAt1, pc1, bi1, maxlenB1, nr1, nu1, pulled1,
 vars2 == <<q2, A2, B2, hasHdr2, breakAt2, pc2, bi2, maxlenB2, nr2, nu2, pulled2, matches2, cands2, candkey2, uset2, stop2, sortbuf2, seen2, counts2, nw2, aggst2, aggcols2, aggkeys2, fphase2, fq2, out2, hdr2, hdrset2, leafcalls2, mon2, err2>>
 
 E1 == INSTANCE RbqlEngine WITH q <- q1, A <- A1, B <- B1, hasHdr <- hasHdr1, breakAt <- breakAt1, pc <- pc1, bi <- bi1, maxlenB <- maxlenB1, nr <- nr1, nu <- nu1, pulled <- pulled1, matches <- matches1, cands <- cands1, candkey <- candkey1, uset <- uset1, stop <- stop1, sortbuf <- sortbuf1, seen <- seen1, counts <- counts1, nw <- nw1, aggst <- aggst1, aggcols <- aggcols1, aggkeys <- aggkeys1, fphase <- fphase1, fq <- fq1, out <- out1, hdr <- hdr1, hdrset <- hdrset1, leafcalls <- leafcalls1, mon <- mon1, err <- err1,
-        Queries <- Queries1, RecsB <- {}, MaxB <- 0, HdrModes <- {FALSE}, BreakPoints <- {0}, EmitCases <- FALSE, MUT <- ""
+        Queries <- Queries1, RecsB <- {}, MaxB <- 0, HdrModes <- {FALSE}, BreakPoints <- {0}, Cyclic <- FALSE, EmitCases <- FALSE, MUT <- ""
 E2 == INSTANCE RbqlEngine WITH q <- q2, A <- A2, B <- B2, hasHdr <- hasHdr2, breakAt <- breakAt2, pc <- pc2, bi <- bi2, maxlenB <- maxlenB2, nr <- nr2, nu <- nu2, pulled <- pulled2, matches <- matches2, cands <- cands2, candkey <- candkey2, uset <- uset2, stop <- stop2, sortbuf <- sortbuf2, seen <- seen2, counts <- counts2, nw <- nw2, aggst <- aggst2, aggcols <- aggcols2, aggkeys <- aggkeys2, fphase <- fphase2, fq <- fq2, out <- out2, hdr <- hdr2, hdrset <- hdrset2, leafcalls <- leafcalls2, mon <- mon2, err <- err2,
-        Queries <- Queries2, RecsB <- {}, MaxB <- 0, HdrModes <- {FALSE}, BreakPoints <- {0}, EmitCases <- FALSE, MUT <- ""
+        Queries <- Queries2, RecsB <- {}, MaxB <- 0, HdrModes <- {FALSE}, BreakPoints <- {0}, Cyclic <- FALSE, EmitCases <- FALSE, MUT <- ""
 
 Init == E1!Init /\ E2!Init /\ sched = <<>>
 
